@@ -227,6 +227,27 @@ CHECKS.update({
 })
 
 
+# ---- the repository's own client data structures as workloads --------------------------------
+def ds_jobs(prop):
+    out = []
+    for which in ("harris", "dlq"):
+        out += [
+            dict(name=f"ds-{which}-S", variant="debug", stage=0, args=["ds", "--which", which, "--mode", "S", "--prop", prop],
+                 shards=dict(quick=3, thorough=8), secs=dict(quick=15, thorough=200)),
+            dict(name=f"ds-{which}-P-release", variant="release", stage=1, threads=4, args=["ds", "--which", which, "--mode", "P", "--prop", prop],
+                 shards=dict(quick=2, thorough=4), secs=dict(quick=8, thorough=90)),
+            dict(name=f"ds-{which}-P-asan", variant="asan", stage=2, threads=4, tiers=["thorough"], args=["ds", "--which", which, "--mode", "P", "--prop", prop],
+                 shards=dict(thorough=4), secs=dict(thorough=90)),
+        ]
+    return out
+
+
+for _p in ("C01", "C02", "C04"):
+    CHECKS[_p]["jobs"] += ds_jobs(_p)
+    CHECKS[_p]["rule"] += ("; plus the repository's own Harris-list map and DoubleLink queue (ported with monitored payloads: cookie check on every node access, "
+                           "exactly-once counters, per-key / FIFO history checks, final nothing-live audit) under the same schedulers")
+CHECKS["C02"]["accept_sig"] = CHECKS["C02"].get("accept_sig", []) + [r"^C02\|"]
+
 # ---- Miri (thorough tier only): UB / data-race interpreter on small programs -------------------
 def miri_job(name, args, secs=240, shards=16, stage=5):
     return dict(name=name, variant="miri", stage=stage, tiers=["thorough"], args=args, miriflags="-Zmiri-seed={shard} -Zmiri-preemption-rate=0.03",
